@@ -46,13 +46,21 @@ pub(crate) fn call(builtin: Builtin, args: &[Object], gc: &mut GC) -> Result<Obj
 fn call_print(args: &[Object]) -> Result<Object, Error> {
     if !args.is_empty() {
         let mut args = args.iter();
-        let mut format_str = args.next().unwrap().to_string();
+        let format_str = args.next().unwrap().to_string();
 
-        for replacement in args {
-            format_str = format_str.replacen("{}", &replacement.to_string(), 1);
+        // one pass over the format text: what an argument inserts is never searched for placeholders again,
+        // and a placeholder without an argument is printed as it is
+        let mut pieces = format_str.split("{}");
+        let mut line = pieces.next().unwrap_or("").to_string();
+        for piece in pieces {
+            match args.next() {
+                Some(replacement) => line.push_str(&replacement.to_string()),
+                None => line.push_str("{}"),
+            }
+            line.push_str(piece);
         }
 
-        print!("{format_str}");
+        print!("{line}");
     }
 
     println!();
